@@ -237,7 +237,7 @@ static void case_F(ByteSource& in, CaseInfo& ci) {
   if (in.chance(40)) { case_Fg_alldigits(in, ci); return; }
   if (in.chance(60)) { case_F_rounded(in, ci); return; }
   // dyadic value m/2^k whose decimal expansion is exact within the requested precision: libc prints it exactly, byte-identical output expected
-  static const char cv[] = "feEgG"; Spec s = gen_spec(in, cv, false); if (s.hash) { s.hash = false; ci.label("F:hash_flag_not_asserted"); }   /* the manual does not spell out '#' for %F */
+  static const char cv[] = "feEgG"; Spec s = gen_spec(in, cv, false); if (s.hash) ci.label("F:hash_flag");   /* '#' is C's: always a point, and for g the trailing zeros are kept (doprnt.c: showpoint + showtrailing) */
   long m = (long)in.srange(-(1 << 20), 1 << 20); if (in.chance(40)) m = 0; int k = (int)in.range(0, 10); double d = std::ldexp((double)m, -k);
   // significant decimal digits of |m|/2^k = digits of |m|*5^k: the requested precision always holds all of them (no rounding, so no
   // dependence on the tie-breaking rule, which the manual does not specify)
